@@ -67,7 +67,8 @@ def run_inputs(chk, quick):
             if role.endswith('sends') and rnd.random() > 0.4:
                 continue
             style = rnd.choice(['one', 'two', 'few', 'crlf'])
-            conv = scen.Conversation(args=role_args)
+            threaded = len(cases) % 5 == 4
+            conv = scen.Conversation(args=role_args, threaded=threaded)
             c = conv.client()
             if role.endswith('sends'):
                 c.sock.cap = 40          # the wire towards the client takes 40 bytes at a time: partial writes and EAGAIN
@@ -80,7 +81,7 @@ def run_inputs(chk, quick):
             cid = len(cases) + 1
             cases.append({'id': cid, 'input': list(raw), 'cgot': list(t['clients'][0]['got']), 'ceof': t['clients'][0]['eof'],
                           'nconnect': len(t['connects']), 'loopdied': not t['alive'], 'tunnel': raw.startswith(b'CONNECT ')})
-            descs[cid] = {'kind': kind, 'role': role, 'segments': style, 'loop_error': t['loop_error']}
+            descs[cid] = {'kind': kind, 'role': role + (', threaded mode' if threaded else ''), 'segments': style, 'loop_error': t['loop_error']}
     results, rej = tlc.run_sharded('TraceInput', 'TraceInput.cfg', cases, shards=16, timeout=1200)
     m = tlc.Merged(results)
     chk.add_tlc('TraceInput (%d connections)' % len(cases), m)
